@@ -467,6 +467,8 @@ func c14eWithStatus(pod *corev1.Pod) *corev1.Pod {
 	for _, ct := range p.Spec.Containers {
 		p.Status.ContainerStatuses = append(p.Status.ContainerStatuses, corev1.ContainerStatus{Name: ct.Name, ContainerID: "containerd://id-" + ct.Name})
 	}
+	// the kubelet reports the statuses sorted by container name, not in spec order
+	sort.Slice(p.Status.ContainerStatuses, func(a, b int) bool { return p.Status.ContainerStatuses[a].Name < p.Status.ContainerStatuses[b].Name })
 	return p
 }
 
